@@ -22,9 +22,11 @@ fn seq<T: Copy>(alpha: &[T], mut i: u64) -> Vec<T> {
 }
 fn seq_count(n: u64, maxlen: u32) -> u64 { (0..=maxlen).map(|l| n.pow(l)).sum() }
 
-struct Case { trap: Trap, word: u16, r0_low: u8, string_words: Vec<u16>, expected_out: Vec<u8>, kb: Vec<u8>, regset: usize, cc: usize, real: bool, ignore_priv: bool }
+#[derive(Clone)]
+struct Case { irq: Option<u64>, trap: Trap, word: u16, r0_low: u8, string_words: Vec<u16>, expected_out: Vec<u8>, kb: Vec<u8>, regset: usize, cc: usize, real: bool, ignore_priv: bool }
 
-fn run_case(c: &Case) -> Result<(), (String, String)> {
+const ISR_AT: u16 = 0x1F00;
+fn run_case(c: &Case) -> Result<u64, (String, String)> {
     let mut m = Machine::user();
     m.real_traps = c.real; m.ignore_priv = c.ignore_priv;
     m.regs = REGSETS[c.regset];
@@ -34,8 +36,16 @@ fn run_case(c: &Case) -> Result<(), (String, String)> {
     m.pokes.push((0x3000, c.word)); m.pokes.push((0x3001, 0xF025));
     for (k, w) in c.string_words.iter().enumerate() { m.pokes.push((STR_AT + k as u16, *w)); }
     m.pokes.push((STR_AT + c.string_words.len() as u16, 0x0000));
-    let what = format!("{:?} (real_traps={} ignore_privilege={}) regs#{} cc x{:04X} string {:x?} keyboard {:x?}", c.trap, c.real, c.ignore_priv, c.regset, CCS[c.cc], c.string_words, c.kb);
+    let mut what = format!("{:?} (real_traps={} ignore_privilege={}) regs#{} cc x{:04X} string {:x?} keyboard {:x?}", c.trap, c.real, c.ignore_priv, c.regset, CCS[c.cc], c.string_words, c.kb);
+    if let Some(i) = c.irq {
+        // an interrupt service routine that uses the supervisor stack like any other (pushes R0, R1; pops them; RTI)
+        static ISR: std::sync::OnceLock<Vec<(u16, u16)>> = std::sync::OnceLock::new();
+        m.pokes.extend(ISR.get_or_init(|| super::c10::image(&super::c10::handler(ISR_AT, ""))).iter().copied());
+        m.pokes.push((0x0190, ISR_AT));
+        what += &format!(" with a priority-4 interrupt requested at instruction boundary {i}");
+    }
     let mut p = build(&m);
+    if let Some(i) = c.irq { p.add_source(0x90, 4, vec![i]); }
     let regs0: Vec<u16> = (0..8).map(|i| p.sim.reg_file[reg(i)].get()).collect();
     let mem0: Vec<u16> = (0x3000..0xFE00u16).map(|a| p.sim.mem[a].get()).collect();
     // run until the instruction after the trap is about to execute (PC = x3001 in user mode) or the machine stops
@@ -45,6 +55,7 @@ fn run_case(c: &Case) -> Result<(), (String, String)> {
         let before = (p.sim.pc, p.sim.instructions_run);
         match catch(|| p.sim.step_in()) { Ok(Ok(())) => {}, Ok(Err(e)) => return Err(("trap-errors".into(), format!("{what}: {e:?} at pc x{:04X}", p.sim.prefetch_pc()))), Err(m) => return Err((format!("panic:{}", panic_site(&m)), format!("{what}: {m}"))) }
         steps += 1;
+        if c.irq.is_some() && p.sim.instructions_run == before.1 && p.sim.pc == ISR_AT { p.sources[0].state.lock().unwrap().pending = 0; } // request taken
         if p.sim.pc == 0x3001 && !p.sim.psr().privileged() { break; }
         if (p.sim.pc, p.sim.instructions_run) == before { stopped = true; break; } // virtual HALT parks the machine
         if c.real && !p.sim.mcr().load(std::sync::atomic::Ordering::Relaxed) && c.trap == Trap::Halt && steps > 3 { stopped = true; break; }
@@ -54,7 +65,7 @@ fn run_case(c: &Case) -> Result<(), (String, String)> {
     let kb_left: Vec<u8> = p.kb.get_buffer().read().unwrap().iter().copied().collect();
     if c.trap == Trap::Halt {
         if !stopped { return Err(("halt-does-not-stop".into(), format!("{what}: execution continued past HALT"))); }
-        return Ok(());
+        return Ok(steps);
     }
     if stopped { return Err(("trap-stops-machine".into(), format!("{what}: machine stopped inside the trap"))); }
     if disp != c.expected_out { return Err((format!("output:{:?}", c.trap), format!("{what}: display {disp:x?}, expected {:x?}", c.expected_out))); }
@@ -68,7 +79,7 @@ fn run_case(c: &Case) -> Result<(), (String, String)> {
     let psr = p.sim.psr().get();
     if psr != CCS[c.cc] { return Err((format!("psr-changed:{:?}", c.trap), format!("{what}: PSR x{psr:04X} after the trap, was x{:04X} (condition codes / privilege / priority)", CCS[c.cc]))); }
     if let Some(a) = (0..mem0.len()).find(|a| p.sim.mem[0x3000 + *a as u16].get() != mem0[*a]) { return Err((format!("user-memory-changed:{:?}", c.trap), format!("{what}: mem[x{:04X}] changed", a + 0x3000))); }
-    Ok(())
+    Ok(steps)
 }
 
 fn cases(ctx: &Ctx) -> Vec<Case> {
@@ -79,38 +90,48 @@ fn cases(ctx: &Ctx) -> Vec<Case> {
         if ignore_priv && regset != 0 && cc != 1 { continue; }
         // GETC / IN: every non-empty queue of length <=3
         for qi in 1..kq { let kb = seq(&KB_SYM, qi);
-            v.push(Case { trap: Trap::Getc, word: 0xF020, r0_low: 0, string_words: vec![], expected_out: vec![], kb: kb.clone(), regset, cc, real, ignore_priv });
+            v.push(Case { irq: None, trap: Trap::Getc, word: 0xF020, r0_low: 0, string_words: vec![], expected_out: vec![], kb: kb.clone(), regset, cc, real, ignore_priv });
             let mut out = prompt.clone(); out.push(kb[0]);
-            v.push(Case { trap: Trap::In, word: 0xF023, r0_low: 0, string_words: vec![], expected_out: out, kb, regset, cc, real, ignore_priv });
+            v.push(Case { irq: None, trap: Trap::In, word: 0xF023, r0_low: 0, string_words: vec![], expected_out: out, kb, regset, cc, real, ignore_priv });
         }
         // OUT / PUTC: every low byte of a boundary set, with queued input that must stay untouched
         for b in [0x00u8, 0x01, 0x41, 0x7F, 0x80, 0xFF] { for kb in [vec![], vec![0x41u8, 0xFF]] {
-            v.push(Case { trap: Trap::Out, word: 0xF021, r0_low: b, string_words: vec![], expected_out: vec![b], kb, regset, cc, real, ignore_priv });
+            v.push(Case { irq: None, trap: Trap::Out, word: 0xF021, r0_low: b, string_words: vec![], expected_out: vec![b], kb, regset, cc, real, ignore_priv });
         } }
         // PUTS: every string of <=3 (thorough 4) symbols
         for si in 0..seq_count(5, ctx.pick(3, 4)) { let s = seq(&PUTS_SYM, si);
-            v.push(Case { trap: Trap::Puts, word: 0xF022, r0_low: 0, expected_out: s.iter().map(|w| *w as u8).collect(), string_words: s, kb: vec![0x41], regset, cc, real, ignore_priv });
+            v.push(Case { irq: None, trap: Trap::Puts, word: 0xF022, r0_low: 0, expected_out: s.iter().map(|w| *w as u8).collect(), string_words: s, kb: vec![0x41], regset, cc, real, ignore_priv });
         }
         // PUTSP: every byte string of <=4 (thorough 5) symbols, packed low byte first
         for si in 0..seq_count(4, ctx.pick(4, 5)) { let b = seq(&PUTSP_SYM, si);
             let words: Vec<u16> = b.chunks(2).map(|c| c[0] as u16 | (c.get(1).copied().unwrap_or(0) as u16) << 8).collect();
-            v.push(Case { trap: Trap::Putsp, word: 0xF024, r0_low: 0, expected_out: b.clone(), string_words: words, kb: vec![], regset, cc, real, ignore_priv });
+            v.push(Case { irq: None, trap: Trap::Putsp, word: 0xF024, r0_low: 0, expected_out: b.clone(), string_words: words, kb: vec![], regset, cc, real, ignore_priv });
         }
         // PUTSP with a zero byte inside a word (high byte zero ends the string; low byte zero ends it before the high byte)
         for w in [0x0041u16, 0x4100, 0x0000] { let exp: Vec<u8> = if w & 0xFF == 0 { vec![] } else { vec![w as u8] };
-            v.push(Case { trap: Trap::Putsp, word: 0xF024, r0_low: 0, expected_out: exp, string_words: vec![w, 0x4242], kb: vec![], regset, cc, real, ignore_priv });
+            v.push(Case { irq: None, trap: Trap::Putsp, word: 0xF024, r0_low: 0, expected_out: exp, string_words: vec![w, 0x4242], kb: vec![], regset, cc, real, ignore_priv });
         }
-        v.push(Case { trap: Trap::Halt, word: 0xF025, r0_low: 0, string_words: vec![], expected_out: vec![], kb: vec![0x41], regset, cc, real, ignore_priv });
+        v.push(Case { irq: None, trap: Trap::Halt, word: 0xF025, r0_low: 0, string_words: vec![], expected_out: vec![], kb: vec![0x41], regset, cc, real, ignore_priv });
     } } }
+    // the same contracts with one interrupt taken at every instruction boundary of the call (the OS routines share the supervisor
+    // stack with interrupt entry and the ISR): quick: regs#0, cc Z, short arguments; thorough: every regset
+    let mut w = vec![];
+    for c in &v {
+        let short = match c.trap { Trap::Getc | Trap::In => c.kb.len() == 1 && c.kb[0] == 0x41, Trap::Out => c.r0_low == 0x41 && c.kb.is_empty(), Trap::Puts => c.string_words == [0x0041, 0x00FF], Trap::Putsp => c.string_words == [0x4101, 0x0080] || c.string_words == [0x4141], Trap::Halt => false };
+        if !short || c.ignore_priv || c.cc != 1 || (c.regset != 0 && !ctx.thorough()) { continue; }
+        let Ok(n) = run_case(c) else { continue };
+        for i in 0..n { let mut d = c.clone(); d.irq = Some(i); w.push(d); }
+    }
+    v.extend(w);
     v
 }
 
 pub fn run(ctx: &Ctx) -> Report {
-    let mut rep = Report::new("each of GETC, OUT/PUTC, PUTS, IN, PUTSP, HALT called from user code at x3000 under virtual and real traps, with and without ignore_privilege (the caller stays in user mode) x 3 register presets x 3 condition codes; GETC/IN: every keyboard queue of length 1-3 over {x00,x41,xFF}; OUT: 6 boundary bytes with and without queued input; PUTS: every string of <=3 (thorough 4) words over {x0041,x00FF,x0001,x0180,x4100}; PUTSP: every byte string of <=4 (thorough 5) over {x01,x41,x80,xFF} packed (odd and even lengths) plus zero-byte-inside-word cases. Oracle: display bytes, R0, input consumed, every other register, PSR (CC, privilege, priority) and all of user memory x3000-xFDFF; HALT stops; the IN prompt is read from the OS image's symbol table. non-trivial = every case");
+    let mut rep = Report::new("each of GETC, OUT/PUTC, PUTS, IN, PUTSP, HALT called from user code at x3000 under virtual and real traps, with and without ignore_privilege (the caller stays in user mode) x 3 register presets x 3 condition codes; GETC/IN: every keyboard queue of length 1-3 over {x00,x41,xFF}; OUT: 6 boundary bytes with and without queued input; PUTS: every string of <=3 (thorough 4) words over {x0041,x00FF,x0001,x0180,x4100}; PUTSP: every byte string of <=4 (thorough 5) over {x01,x41,x80,xFF} packed (odd and even lengths) plus zero-byte-inside-word cases. Oracle: display bytes, R0, input consumed, every other register, PSR (CC, privilege, priority) and all of user memory x3000-xFDFF; HALT stops; (S) the short-argument calls again with one priority-4 interrupt (ISR pushing and popping two registers on the supervisor stack) taken at every instruction boundary of the call, same contract; the IN prompt is read from the OS image's symbol table. non-trivial = every case");
     let cs = cases(ctx);
     let r = sweep(ctx, cs.len() as u64, 4, |i, acc| {
         let c = &cs[i as usize];
-        acc.evals += 1; acc.transitions += 30; acc.traces += 1; acc.nontrivial += 1; acc.count(&format!("{:?}", c.trap), 1);
+        acc.evals += 1; acc.transitions += 30; acc.traces += 1; acc.nontrivial += 1; acc.count(&format!("{:?}", c.trap), 1); if c.irq.is_some() { acc.count("with_interrupt", 1); }
         acc.outcomes.insert(fnv(&c.expected_out) ^ c.trap as u64);
         acc.sample(i, ctx.seed, 501, || format!("{:?} real={} string {:x?} keyboard {:x?}", c.trap, c.real, c.string_words, c.kb));
         if let Err((sig, d)) = run_case(c) { acc.violation(sig, i.to_string() + if ctx.thorough() { ":t" } else { ":q" }, d); }
@@ -118,6 +139,7 @@ pub fn run(ctx: &Ctx) -> Report {
     rep.absorb(r);
     rep.bound("cases", Json::i(cs.len() as u64));
     rep.require(rep.acc.outcomes.len() > 100, "many distinct outputs expected");
+    rep.require(rep.acc.get("with_interrupt") > 200, "calls interrupted at every instruction boundary were judged");
     rep
 }
 pub fn replay(case: &str) -> Option<String> {
